@@ -77,8 +77,12 @@ pub use solve::RegretParams;
 use solve::{external, vanilla};
 use split::{split_by, split_by_mut};
 use std::borrow::Borrow;
+#[cfg(not(kani))]
 use std::collections::hash_map;
+#[cfg(not(kani))]
 use std::collections::{HashMap, HashSet};
+#[cfg(kani)]
+use verif_kani::maps::{hash_map, HashMap, HashSet};
 use std::hash::Hash;
 use std::iter::{self, FusedIterator, Once, Zip};
 use std::num::NonZeroUsize;
